@@ -20,6 +20,9 @@ names = [n for n in names if os.path.isdir(f"/verif/seeded/{n}")]
 for name in names:
     d = f"/verif/seeded/{name}"
     meta = json.load(open(d + "/meta.json"))
+    if meta.get("superseded_by") and not props:
+        print(f"{name}: SUPERSEDED by {meta['superseded_by'][:60]}...")
+        continue
     plist = props or [meta["breaks_property"]]
     scratch = tempfile.mkdtemp(prefix="mut.", dir="/dev/shm")
     try:
